@@ -187,6 +187,7 @@ pub mod verif {
         verif_kummer_elliptic_perimeter_range,
     };
     pub use crate::quadbez::{verif_approx_parabola_integral, verif_approx_parabola_inv_integral};
+    pub use crate::fit::verif_curvedist_samples;
     use core::sync::atomic::{AtomicU64, Ordering};
     static WORK: AtomicU64 = AtomicU64::new(0);
     #[inline]
